@@ -70,6 +70,12 @@ def make_trace(tid, rng, nops=30, **opt):
     pos = list(range(npos))
     rng.shuffle(pos)
     bat = [(-1 if rng.random() < 0.3 else pos.pop()) if kind == "dynamic" else -1 for _ in range(n)]
+    runs = opt.get("many") == "runs"
+    if runs:  # long runs of absent / present blocks of 1-2 MiB
+        kind, bs, n = "dynamic", rng.choice([1 << 20, 2 << 20, 2 << 20]), rng.randrange(40, 64)
+        plan = diskprop.run_plan(rng, n, ["U", "D", "Dr"])
+        pp, npos = diskprop.run_positions(plan)
+        bat = [-1 if k == "U" else pp[i] for i, k in enumerate(plan)]
     tail = rng.choice([0, 0, 512, bs // 2, bs - 512, 3 * 512])
     size_b = n * bs - tail
     img = {"kind": kind, "n": n, "cb": 1, "bat": {i: bat[i] for i in range(n)}, "size": n, "foot511": rng.random() < 0.25}
@@ -82,7 +88,10 @@ def make_trace(tid, rng, nops=30, **opt):
     s = b.open()
     fresh = b.open()
     rec = record.Recorder(s, size_b, probe=fresh.readoffset, align=opt.get("align"))
-    record.random_ops(rec, rng, size_b, nops, unit=bs, big=min(3 * bs + 4096, 6 << 20),
+    if runs:
+        diskprop.whole_disk_ops(rec, rng, size_b, bs, sectors_fn=s.disk.read_sectors)
+        nops = 6
+    record.random_ops(rec, rng, size_b, nops, unit=bs, big=(size_b + 4096) if runs else min(3 * bs + 4096, 6 << 20),
                       sectors_fn=s.disk.read_sectors, ssize=512)
     return {"tid": tid, "fmt": "vhd", "img": {"kind": kind, "n": n, "cb": 1, "bat": bat, "size": n, "foot511": img["foot511"]},
             "sizeB": size_b, "sector": 512, "geo": b.geo(), "events": rec.events}
